@@ -31,8 +31,11 @@ type zzvU struct {
 	nfile int
 }
 
-func zzvNewU(base string) *zzvU {
-	dir, err := os.MkdirTemp(base, "u")
+func zzvNewU(base string) *zzvU { return zzvNewUNamed(base, "u") }
+
+// zzvNewUNamed puts the telemetry directory under a parent directory whose name starts with prefix.
+func zzvNewUNamed(base, prefix string) *zzvU {
+	dir, err := os.MkdirTemp(base, prefix)
 	if err != nil {
 		panic(err)
 	}
